@@ -10,6 +10,7 @@ import (
 	"os"
 	"path/filepath"
 	"strings"
+	"time"
 
 	"github.com/NethermindEth/juno/consensus/starknet"
 	"github.com/NethermindEth/juno/consensus/types/wal"
@@ -89,6 +90,7 @@ type codecCtx struct {
 	db   string
 	path string
 	n    int
+	dead bool // the driver is gone: reported once
 }
 
 // reopen writes the log and returns what the real store makes of it.
@@ -144,14 +146,24 @@ func panicSig(err error) string {
 
 // payloadCase: the decoder on `value` (checksum valid) versus the Lean model.
 func (c *codecCtx) payloadCase(s codecSample, value []byte, what string) {
+	if c.dead {
+		return
+	}
 	c.n++
 	hx := "-"
 	if len(value) > 0 {
 		hx = hex.EncodeToString(value)
 	}
-	model, derr := c.drv.Ask("decode " + hx)
+	var model string
+	var derr error
+	if !lib.WithDeadline(60*time.Second, func() { model, derr = c.drv.Ask("decode " + hx) }) {
+		derr = fmt.Errorf("no answer within 60 s")
+	}
 	if derr != nil {
-		c.res.Fatalf("driver: %v", derr)
+		if !c.dead {
+			c.res.Fatalf("codec section: driver died or did not answer: %v", derr)
+		}
+		c.dead = true
 		return
 	}
 	got, err := c.reopen(frame(s.file, value))
@@ -206,7 +218,15 @@ func (c *codecCtx) batchCase(s codecSample, file []byte, what string) {
 		// (batchrepr.DecodeStr). Only a checksum-valid, malformed batch gets there; no crash produces
 		// one (juno writes well-formed batches, torn writes fail the checksum), so this is recorded,
 		// not reported: see notes/C14.md "Observations".
-		c.res.Hit("batch:pebble-batchrepr-" + strings.TrimPrefix(strings.TrimSuffix(sig, "-on-corrupt-record"), "decode-"))
+		// tolerated only where it is understood: the key-length byte of the record (offset 24), an
+		// index / slice bound violation inside batchrepr
+		if sig == "decode-panics-on-corrupt-record" && strings.HasPrefix(what, "byte@24=") &&
+			(strings.Contains(err.Error(), "index out of range") || strings.Contains(err.Error(), "slice bounds out of range")) {
+			c.res.Hit("batch:pebble-batchrepr-panics")
+			return
+		}
+		keepBest(lib.Violation{Sig: sig, What: fmt.Sprintf("NewTendermintWALStore on a log with a damaged batch header (%s, %s): %v", s.name, what, err),
+			Replay: map[string]any{"ops": []Op{}, "codec": s.name, "damage": what, "file": hex.EncodeToString(file)}})
 		return
 	}
 	switch {
